@@ -19,6 +19,18 @@ def helper_eq(value, snap):
 
 """
 
+PICKY = """class Picky:
+    def __init__(self, n):
+        self.n = n
+    def __eq__(self, other):
+        if not isinstance(other, Picky):
+            raise ValueError("cannot compare")
+        return self.n == other.n
+    def __repr__(self):
+        return f"Picky({self.n})"
+
+"""
+
 ASSERT_HELPERS = """def check(b):
     return b
 
@@ -181,6 +193,10 @@ def render_program(rng, sites, rich, style, layout):
         if (k + 1) % per_test == 0 or k == len(sites) - 1:
             tests.append(f"def test_{tno}():\n" + "\n".join(cur) + "\n")
             cur, tno = [], tno + 1
+    if layout.get("raising_first"):
+        # documented usage: a comparison that raises (here inside the alignment of a list); it must not disturb later snapshots
+        hdr += PICKY
+        tests.insert(0, "def test_00_raises():\n    try:\n        assert [Picky(1)] == snapshot([1])\n    except ValueError:\n        pass\n")
     comment = "# a comment with ünïcödé\n" if layout.get("nonascii") else ""
     src = hdr + comment + "\n".join(mods) + ("\n\n" if mods else "") + "\n\n".join(tests)
     if layout.get("no_final_newline"):
